@@ -12,6 +12,7 @@ CONSTANTS
   DDVft = {"no"}
   B1Names = {"b1"}
   SameName = FALSE
+  XdNames = {"xd"}
   Ptrs = {4, 8}
   Lead = {FALSE}
   EmptyBlocks = {FALSE}
